@@ -841,7 +841,7 @@ def power(I, a, b):
         return r
     if isinstance(b, float) and b == 0.5:
         x = zreal(a)
-        if not I.st.branch(x >= 0):
+        if not I.st.branch(x >= 0, exact=True):
             raise Unsupported('sqrt of negative (complex result)')
         t = SQRT(x)
         I.st.assume(z3.And(t >= 0, t * t == x))
